@@ -17,6 +17,8 @@ RULE = ("metafiles of all versions x edit requests; (a) the audit-hook trace of 
         "fresh interpreters: the process is killed before each mutating operation and inside "
         "the write after prefixes {0,1,half,len-1}; each operation raises PermissionError / "
         "ENOSPC (the write after the same prefixes); requests whose values cannot be encoded; "
+        "a leftover '<metafile>.part' (regular file, symbolic link or hard link, of the metafile "
+        "itself or of another file) under the same faults; "
         "after every fault the path must strictly decode to the complete old or complete new "
         "metafile (old when an error was raised before the replace); distinct by (version, "
         "request shape, fault kind, op index, prefix class); non-trivial when the fault point "
@@ -40,7 +42,10 @@ def inject(spec, cwd):
     return proc.returncode, obs, proc.stderr[-300:]
 
 
-def faults_for(length):
+STALE_KINDS = ("file", "link-to-metafile", "link-to-other", "hardlink-to-metafile", "hardlink-to-other")
+
+
+def faults_for(length, full_kind="hardlink-to-metafile"):
     prefixes = sorted({0, 1, length // 2, max(0, length - 1)})
     out = []
     for k in range(0, 4):
@@ -65,10 +70,26 @@ def faults_for(length):
     # the same faults after an earlier successful edit in the same process
     out.append({"mode": "raise-write", "prefix": prefixes[1], "error": "nospace", "warmup": True})
     out.append({"mode": "raise", "k": 1, "error": "perm", "warmup": True})
-    # a leftover '<metafile>.part' (regular file, link to the metafile, link to another file)
-    for kind in ("file", "link-to-metafile", "link-to-other"):
+    # a leftover '<metafile>.part': a regular file, a symbolic link to the metafile / to another
+    # file, a HARD link (second name of the same inode) of the metafile / of another file
+    mid = max(1, length // 2)
+    for kind in STALE_KINDS:
         out.append({"mode": "none", "stale_part": kind})
-        out.append({"mode": "kill-write", "prefix": max(1, length // 2), "stale_part": kind})
+        out.append({"mode": "kill-write", "prefix": mid, "stale_part": kind})
+        if kind.startswith("hardlink") or kind == full_kind:
+            # the process dies right after the output was opened; the write fails half way
+            out.append({"mode": "kill-write", "prefix": 0, "stale_part": kind})
+            out.append({"mode": "raise-write", "prefix": mid, "error": "nospace", "stale_part": kind})
+        if kind == full_kind:
+            # ... and every other fault point (one leftover kind per case, in rotation)
+            for k in range(0, 4):
+                out.append({"mode": "kill", "k": k, "stale_part": kind})
+                out.append({"mode": "raise", "k": k, "error": "perm", "stale_part": kind})
+            out.append({"mode": "raise-write", "prefix": 0, "error": "nospace", "stale_part": kind})
+            out.append({"mode": "kill-write", "prefix": max(0, length - 1), "stale_part": kind})
+            out.append({"mode": "short-oswrite", "prefix": mid, "stale_part": kind})
+            out.append({"mode": "raise-close", "prefix": mid, "error": "nospace", "stale_part": kind})
+            out.append({"mode": "kill-after-replace", "stale_part": kind})
     return out
 
 
@@ -114,11 +135,14 @@ def run_case(run, drv, case_seed, pool):
         reads = [os.path.basename(p) for p in tr.reads]
         case = {"case_seed": case_seed, "version": m["version"], "req": req}
         drv.ask(f"ops edit {hx(b'good.torrent')} 1", ("ops", case, (reads, trace)))
-        link = ["plain", "bare-relative", "symlink", "hardlink", "part-named"][KIND[0] % 5]
+        rot = KIND[0]
+        link = ["plain", "bare-relative", "symlink", "hardlink", "part-named"][rot % 5]
         KIND[0] += 1
         case["link"] = link
+        case["rot"] = rot
         jobs = []
-        specs = faults_for(len(new))
+        # the leftover kind that meets every fault point in this case (rotates against `link`)
+        specs = faults_for(len(new), STALE_KINDS[(rot + rot // 5) % 5])
         specs += [{"mode": "none", "req": r} for r in UNENCODABLE]
         specs += [{"mode": "none", "req": r, "warmup": True} for r in UNENCODABLE[:3]]
         for i, f in enumerate(specs):
@@ -155,8 +179,10 @@ def run_case(run, drv, case_seed, pool):
                 (f.get("mode") in ("kill", "raise") and f.get("k", 0) in (0, 1))
             run.case([m["version"], sorted(req), f.get("mode"), f.get("k"),
                       _pclass(f.get("prefix"), len(new)), f.get("error"),
-                      repr(f.get("req"))[:30]], inside, sample=fc,
-                     classes=[f.get("mode", "unencodable"), verdict])
+                      repr(f.get("req"))[:30]] + ([f["stale_part"]] if f.get("stale_part") else []),
+                     inside, sample=fc,
+                     classes=[f.get("mode", "unencodable"), verdict] +
+                     ([f"leftover:{f['stale_part']}"] if f.get("stale_part") else []))
             if verdict in ("missing", "other"):
                 try:
                     refspec.strict_decode(state or b"")
@@ -293,6 +319,8 @@ def run(tier, seed, replay=None):
         with concurrent.futures.ThreadPoolExecutor(max_workers=8) as pool:
             interactive_route(run, pool)
         return run.finish()
+    if replay:
+        KIND[0] = replay["case"].get("rot", 0)      # the same metafile-path kind and leftover rotation
     seeds = [replay["case"]["case_seed"]] if replay else \
         [-1, -2, -3, -4, -5] + [run.rng.randrange(10 ** 9) for _ in range(6 if tier == "quick" else 40)]
     with concurrent.futures.ThreadPoolExecutor(max_workers=12) as pool:
